@@ -2,6 +2,8 @@
 
 package semap
 
+import "sync"
+
 // Verification hooks (build tag verif only): read-only projections of the container state and a
 // gate at the one scheduling point inside acquire that the public API cannot reach.
 
@@ -15,6 +17,36 @@ func verifGate(point string) {
 	}
 }
 
+// verifMaps records every SemMap built since the last VerifReset.  A harness resets it right before it
+// builds one container and builds no other until it is done with that one, so the record is exactly
+// the set of maps (shards) that container ever made - including any it no longer refers to.
+var verifMaps struct {
+	sync.Mutex
+	all []*SemMap
+}
+
+func verifNew(m *SemMap) {
+	verifMaps.Lock()
+	verifMaps.all = append(verifMaps.all, m)
+	verifMaps.Unlock()
+}
+
+// VerifReset forgets the maps recorded so far.
+func VerifReset() {
+	verifMaps.Lock()
+	verifMaps.all = nil
+	verifMaps.Unlock()
+}
+
+func verifAll(m SemMapper) []*SemMap {
+	if s, ok := m.(*SemMap); ok {
+		return []*SemMap{s}
+	}
+	verifMaps.Lock()
+	defer verifMaps.Unlock()
+	return append([]*SemMap(nil), verifMaps.all...)
+}
+
 func verifShard(m SemMapper, key interface{}) *SemMap {
 	switch s := m.(type) {
 	case *SemMap:
@@ -26,29 +58,24 @@ func verifShard(m SemMapper, key interface{}) *SemMap {
 }
 
 // VerifKeyState reports whether the container holds an entry for key, the tokens handed out and
-// the number of queued waiters of that entry.
+// the number of queued waiters for it - summed over every map the container made.
 func VerifKeyState(m SemMapper, key interface{}) (present bool, cur int, waiters int) {
-	var s = verifShard(m, key)
-	s.mux.Lock()
-	defer s.mux.Unlock()
-	var w, ok = s.m[key]
-	if !ok {
-		return false, 0, 0
+	for _, s := range verifAll(m) {
+		s.mux.Lock()
+		if w, ok := s.m[key]; ok {
+			present = true
+			cur += w.cur
+			waiters += w.waiters.Len()
+		}
+		s.mux.Unlock()
 	}
-	return true, w.cur, w.waiters.Len()
+	return present, cur, waiters
 }
 
-// VerifEntries reports the number of entries kept by the container (all shards).
+// VerifEntries reports the number of entries kept by the container (every map it made).
 func VerifEntries(m SemMapper) int {
-	var ms []*SemMap
-	switch s := m.(type) {
-	case *SemMap:
-		ms = []*SemMap{s}
-	case *WideSemMap:
-		ms = s.ms
-	}
 	var n int
-	for _, s := range ms {
+	for _, s := range verifAll(m) {
 		s.mux.Lock()
 		n += len(s.m)
 		s.mux.Unlock()
